@@ -162,6 +162,18 @@ TIES = {
     # the generic integration's adapters (with the Adapter base class and the term classes of generic_sink.py), translated, simulate
     # the adapters as the model has them; hence the translated Decoder over the translated adapters against the model
     # the term classes of the generic integration as one generated inductive type; their equality is the model's term_eqb
+    # where an encoded term goes in a statement message: lemmas shared by the two integrations' dispatcher ties (no theorem of its own)
+    "stmt_layout": {"sources": ["pyjelly/serialize/encode.py"], "unit": "encode", "gen": "EncodeGen", "tie": "StmtLayout",
+                    "needs": ["lookup_enc", "lookup_dec", "options", "encode", "encode_stmt", "decode", "decoder_base"], "theorems": []},
+    # the rdflib integration's term encoder (RDFLibTermEncoder.encode_spo / encode_graph) over rdflib's term objects as the unit specifies
+    # them: sim_spo / sim_graph PROVED, so the statement-level and Stream theorems hold at rdflib's objects and rdflib's == (on the terms
+    # where that == is exact: language tags in lower case)
+    "rdflib_serialize": {"sources": ["pyjelly/integrations/rdflib/serialize.py", "pyjelly/serialize/encode.py", "pyjelly/serialize/streams.py"],
+                         "gen": "RdflibSerializeGen", "tie": "RdflibSerializeTie",
+                         "needs": ["lookup_enc", "lookup_dec", "options", "encode", "encode_stmt", "flows", "streams", "decode", "decoder_base", "stmt_layout"],
+                         "theorems": ["rdflib_term_eq_is_model", "rdflib_sim_spo", "rdflib_sim_graph", "rdflib_encode_triple_is_model",
+                                      "rdflib_encode_quad_is_model", "rdflib_stream_triple_is_model", "rdflib_stream_quad_is_model",
+                                      "rdflib_stream_graph_is_model"]},
     "generic_sink": {"sources": ["pyjelly/integrations/generic/generic_sink.py"], "gen": "GenericSinkGen", "tie": "GenericTerms", "needs": [],
                      "theorems": ["source_term_eq_is_model"]},
     "generic_parse": {"sources": ["pyjelly/integrations/generic/parse.py", "pyjelly/integrations/generic/generic_sink.py", "pyjelly/parse/decode.py"],
@@ -173,7 +185,7 @@ TIES = {
     # sim_graph of the statement-level and Stream ties are PROVED for it, so those theorems hold for the generic integration outright
     "generic_serialize": {"sources": ["pyjelly/integrations/generic/serialize.py", "pyjelly/integrations/generic/generic_sink.py", "pyjelly/serialize/encode.py"],
                           "gen": "GenericSerializeGen", "tie": "GenericSerializeTie",
-                          "needs": ["lookup_enc", "lookup_dec", "options", "encode", "encode_stmt", "flows", "streams", "decode", "decoder_base", "generic_sink"],
+                          "needs": ["lookup_enc", "lookup_dec", "options", "encode", "encode_stmt", "flows", "streams", "decode", "decoder_base", "stmt_layout", "generic_sink"],
                           "theorems": ["gs_spo_fuel_tie", "generic_sim_spo", "generic_sim_graph", "generic_encode_triple_is_model", "generic_encode_quad_is_model",
                                        "generic_stream_triple_is_model", "generic_stream_quad_is_model", "generic_stream_graph_is_model"]},
     # C01 / C04 for the generic integration with the translated source on both sides of the message objects: what the translated
@@ -182,7 +194,7 @@ TIES = {
                                        "pyjelly/integrations/generic/generic_sink.py", "pyjelly/serialize/encode.py", "pyjelly/parse/decode.py",
                                        "pyjelly/serialize/streams.py"],
                            "unit": "generic_serialize", "gen": "GenericSerializeGen", "tie": "GenericRoundTrip", "props": ["C01", "C04", "C14"],
-                           "needs": ["lookup_enc", "lookup_dec", "options", "encode", "encode_stmt", "flows", "streams", "decode", "decoder_base", "decoder",
+                           "needs": ["lookup_enc", "lookup_dec", "options", "encode", "encode_stmt", "flows", "streams", "decode", "decoder_base", "decoder", "stmt_layout",
                                      "generic_sink", "generic_parse", "generic_serialize"],
                            "theorems": ["grmsg_owner", "generic_reads_written_frames", "C01_source_generic_triples", "C01_source_generic_quads",
                                         "C01_source_generic_graphs", "C04_source_generic_reads_valid_streams", "C14_source_generic_triples",
@@ -192,7 +204,7 @@ TIES = {
     "generic_drivers": {"sources": ["pyjelly/integrations/generic/serialize.py", "pyjelly/integrations/generic/generic_sink.py",
                                     "pyjelly/serialize/streams.py", "pyjelly/serialize/flows.py", "pyjelly/serialize/encode.py"],
                         "unit": "generic_serialize", "gen": "GenericSerializeGen", "tie": "GenericDriversTie",
-                        "needs": ["lookup_enc", "lookup_dec", "options", "encode", "encode_stmt", "flows", "streams", "decode", "decoder_base", "generic_sink",
+                        "needs": ["lookup_enc", "lookup_dec", "options", "encode", "encode_stmt", "flows", "streams", "decode", "decoder_base", "stmt_layout", "generic_sink",
                                   "generic_serialize"],
                         "theorems": ["source_namespace_declarations_is_model", "source_triples_stream_frames_is_model",
                                      "source_quads_stream_frames_is_model", "source_split_to_graphs_is_model", "source_graphs_stream_frames_is_model"]},
@@ -202,7 +214,7 @@ TIES = {
                                        "pyjelly/integrations/generic/generic_sink.py", "pyjelly/serialize/encode.py", "pyjelly/parse/decode.py",
                                        "pyjelly/serialize/streams.py", "pyjelly/serialize/flows.py"],
                            "unit": "generic_serialize", "gen": "GenericSerializeGen", "tie": "GenericEndToEnd", "props": ["C01", "C14"],
-                           "needs": ["lookup_enc", "lookup_dec", "options", "encode", "encode_stmt", "flows", "streams", "decode", "decoder_base", "decoder",
+                           "needs": ["lookup_enc", "lookup_dec", "options", "encode", "encode_stmt", "flows", "streams", "decode", "decoder_base", "decoder", "stmt_layout",
                                      "generic_sink", "generic_parse", "generic_serialize", "generic_round_trip", "generic_drivers"],
                            "theorems": ["constructed_stream_is_related", "C01_end_to_end_generic_triples", "C01_end_to_end_generic_quads",
                                         "C01_end_to_end_generic_graphs"]},
@@ -352,7 +364,7 @@ def _prim_check(seed: int, n: int) -> tuple[str | None, int]:
             f"(the source ties rest on it): {out[-200:]}"), len(cases)
 
 
-def _tx_check(ctx, repo: str, n: int, reader: bool, writer: bool) -> tuple[str | None, int, dict]:
+def _tx_check(ctx, repo: str, n: int, reader: bool, writer: bool, rdf: bool = False) -> tuple[str | None, int, dict]:
     """The translation cross-check (txcheck.py): the generated Gallina of the reader chain, evaluated by vm_compute, against the
     real code of the tree under check on the same frames -- yields and exception classes, frame by frame."""
     import shutil
@@ -365,13 +377,13 @@ def _tx_check(ctx, repo: str, n: int, reader: bool, writer: bool) -> tuple[str |
     q = f"-Q model PJ.Model -Q tie PJ.Tie -Q {tmpd}/tie PJ.Tie -Q {tmpd}/gen PJ.Gen"
     os.mkdir(f"{tmpd}/tie")
     try:
-        for unit in ("lookup_enc", "lookup_dec", "options", "encode", "flows", "streams", "decode", "generic_sink", "generic_parse", "generic_serialize"):
+        for unit in ("lookup_enc", "lookup_dec", "options", "encode", "flows", "streams", "decode", "generic_sink", "generic_parse", "generic_serialize") + (("rdflib_serialize",) if rdf else ()):
             p = subprocess.run([sys.executable, str(VERIF / "translate" / "py2v.py"), repo, unit], capture_output=True, text=True, timeout=120)
             if p.returncode != 0:
                 return None, 0, {"note": "translator refuses the source (reported by the tie)"}
             gen = {"lookup_enc": "LookupEncGen", "lookup_dec": "LookupDecGen", "options": "OptionsGen", "encode": "EncodeGen", "flows": "FlowsGen",
                    "streams": "StreamsGen", "decode": "DecodeGen", "generic_sink": "GenericSinkGen", "generic_parse": "GenericParseGen",
-                   "generic_serialize": "GenericSerializeGen"}[unit]
+                   "generic_serialize": "GenericSerializeGen", "rdflib_serialize": "RdflibSerializeGen"}[unit]
             (Path(tmpd) / "gen" / f"{gen}.v").write_text(p.stdout)
             rc, out = sh(f"cd {VERIF}/coq && timeout 600 coqc {q} {tmpd}/gen/{gen}.v", timeout=700)
             if rc != 0:
@@ -379,6 +391,10 @@ def _tx_check(ctx, repo: str, n: int, reader: bool, writer: bool) -> tuple[str |
         rc, out = sh(f"cd {VERIF}/coq && timeout 600 coqc {q} -o {tmpd}/tie/TxRun.vo tie/TxRun.v", timeout=700)
         if rc != 0:
             return f"translation cross-check: coq/tie/TxRun.v does not compile against the translation of this tree: {out[-300:]}", 0, {}
+        if rdf:
+            rc, out = sh(f"cd {VERIF}/coq && timeout 600 coqc {q} -o {tmpd}/tie/TxRunRdflib.vo tie/TxRunRdflib.v", timeout=700)
+            if rc != 0:
+                return f"translation cross-check: coq/tie/TxRunRdflib.v does not compile against the translation of this tree: {out[-300:]}", 0, {}
         class _C:  # its own generator: the plan's sample does not depend on whether this check ran
             rng = random.Random(ctx.seed * 104729 + 7)
         cases, stats = txcheck.gen_cases(_C, n) if reader else ([], {})
@@ -392,6 +408,18 @@ def _tx_check(ctx, repo: str, n: int, reader: bool, writer: bool) -> tuple[str |
         os.mkdir(f"{tmpd}/cases")
         (Path(tmpd) / "cases" / "TxCases.v").write_text(txcheck.coq_file(cases))
         rc, out = sh(f"cd {VERIF}/coq && timeout 1500 coqc {q} -Q {tmpd}/cases PJ.Tx {tmpd}/cases/TxCases.v", timeout=1600)
+        if rc == 0 and rdf:
+            rcases, rstats = txcheck.gen_rdflib_cases(_C, n)
+            stats["rdflib"] = rstats
+            (Path(tmpd) / "cases" / "TxCasesR.v").write_text(txcheck.coq_file_rdflib(rcases))
+            rc, out = sh(f"cd {VERIF}/coq && timeout 1500 coqc {q} -Q {tmpd}/cases PJ.Tx {tmpd}/cases/TxCasesR.v", timeout=1600)
+            if rc != 0:
+                m = re.search(r"line (\d+)", out)
+                k = (int(m.group(1)) - 5) // 2 if m else -1
+                bad = rcases[k][:300] + " ... " + rcases[k][-300:] if 0 <= k < len(rcases) else "?"
+                return (f"translation cross-check (rdflib): the specification of rdflib's term objects in the translation unit, or the translated RDFLibTermEncoder with the "
+                        f"Stream classes (generated Gallina evaluated by vm_compute), differs from the real rdflib / the real code of this tree: {bad} :: {out[-200:]}"), len(cases) + len(rcases), stats
+            cases = cases + rcases
     finally:
         shutil.rmtree(tmpd, ignore_errors=True)
     if rc == 0:
@@ -425,7 +453,8 @@ def source_ties(ctx, po: dict, pid: str) -> list[str]:
         prim = ex.submit(_prim_check, ctx.seed, 60 if ctx.quick else 400)
         tx_r = bool(set(names) & {"decode", "decoder", "generic_parse"})
         tx_w = bool(set(names) & {"encode", "encode_stmt", "flows", "streams", "generic_serialize"})
-        tx = ex.submit(_tx_check, ctx, repo, 20 if ctx.quick else 120, tx_r, tx_w) if (tx_r or tx_w) else None
+        tx_rd = "rdflib_serialize" in names
+        tx = ex.submit(_tx_check, ctx, repo, 20 if ctx.quick else 120, tx_r, tx_w, tx_rd) if (tx_r or tx_w or tx_rd) else None
         root_res = dict(zip([u for u, _ in roots], ex.map(lambda ut: _one_tie(ut[0], ut[1], repo), roots)))
 
         def top(u):
@@ -452,6 +481,7 @@ def source_ties(ctx, po: dict, pid: str) -> list[str]:
             ctx.report.count("translation-cross-check/streams", tx_n)
             w = tx_stats.get("writer")
             dr = tx_stats.get("drivers")
+            rd = tx_stats.get("rdflib")
             ctx.report.notes.append("translation cross-check: the generated Gallina, evaluated by vm_compute, against the real code of this tree"
                                     + (f"; reader chain (options_from_frame, parse_jelly_flat with the generic adapters and Decoder.iter_rows): same yields and same exception classes on "
                                        f"{tx_stats.get('valid', 0)} streams of the reference encoder as they are and {tx_stats.get('mutated', 0)} with one mutation "
@@ -462,7 +492,11 @@ def source_ties(ctx, po: dict, pid: str) -> list[str]:
                                     + (f"; writer drivers (GenericStatementSink with bind / add, then triples_stream_frames / quads_stream_frames / graphs_stream_frames "
                                        f"with split_to_graphs, consumed to the end or to the exception): same frames and same exception classes on {dr['streams']} sinks "
                                        f"({dr['by_driver']}; {dr['mixed_sinks']} holding a statement of the other kind; {dr['frames']} frames; exceptions compared: {dr['exceptions']})"
-                                       if dr else ""))
+                                       if dr else "")
+                                    + (f"; rdflib: the unit's specification of rdflib's term objects against the real ones (isinstance, str, ==: {rd['object_pairs']} pairs, "
+                                       f"{rd['equal_pairs']} equal, {rd['case_only_pairs']} literals that differ in the case of the language tag only) and RDFLibTermEncoder under "
+                                       f"TripleStream / QuadStream: same frames and exception classes on {rd['streams']} statement lists ({rd['frames']} frames; exceptions compared: {rd['exceptions']})"
+                                       if rd else ""))
     if prim_bad:
         po["broken"].append(prim_bad)
     else:
